@@ -72,8 +72,25 @@ type pgen struct {
 }
 
 func (g *pgen) pick(s ...string) string { return s[g.r.Intn(len(s))] }
-func (g *pgen) multi() bool             { return g.r.Intn(g.ml) == 0 }
-func (g *pgen) wide() bool              { return g.r.Intn(g.mb) == 0 }
+
+// lb / rb spell the braces around an expression: usually with one space of
+// padding, sometimes with none, several, a tab or a line break.
+func (g *pgen) lb() string {
+	if g.r.Intn(6) != 0 {
+		return "{ "
+	}
+	return "{" + g.pick("", "  ", "\t", "\n\t\t", " \n", " \t ")
+}
+
+func (g *pgen) rb() string {
+	if g.r.Intn(6) != 0 {
+		return " }"
+	}
+	return g.pick("", "  ", "\t", "\n\t", " \n") + "}"
+}
+
+func (g *pgen) multi() bool { return g.r.Intn(g.ml) == 0 }
+func (g *pgen) wide() bool  { return g.r.Intn(g.mb) == 0 }
 
 var wideLetters = []string{"é", "ß", "ж", "世", "界", "ü", "𝛼", "λ", "ñ"}
 var wideText = []string{"é", "ß", "世界", "ü", "🙂", "→", "ж", "𝛼", "ñ", "日本"}
@@ -237,12 +254,12 @@ func (g *pgen) node(n int) string {
 	}
 	switch k {
 	case 0: // string expression, possibly after multi-byte text on the same line
-		return in + g.pick("", g.words()+" ", g.pick(wideText...)+" ", g.pick(wideText...)) + "{ " + g.expr(0) + " }" + g.pick("", " "+g.words()) + "\n"
+		return in + g.pick("", g.words()+" ", g.pick(wideText...)+" ", g.pick(wideText...)) + g.lb() + g.expr(0) + g.rb() + g.pick("", " "+g.words()) + "\n"
 	case 1:
 		return in + g.words() + "\n"
 	case 2: // element on one line with an expression inside
 		el := g.pick("span", "b", "a", "p", "li", "td", "button")
-		return in + "<" + el + g.attrs(n, el, false) + ">" + g.pick("", g.words(), g.pick(wideText...)) + "{ " + g.expr(0) + " }" + "</" + el + ">" + g.pick("", " ") + "\n"
+		return in + "<" + el + g.attrs(n, el, false) + ">" + g.pick("", g.words(), g.pick(wideText...)) + g.lb() + g.expr(0) + g.rb() + "</" + el + ">" + g.pick("", " ") + "\n"
 	case 3: // block element
 		el := g.pick("div", "section", "ul", "form", "a", "table", "main")
 		s := in + "<" + el + g.attrs(n, el, g.multi()) + ">\n"
@@ -377,22 +394,22 @@ func (g *pgen) attr(n int, el string, d int) string {
 	case 1:
 		return g.pick("disabled", "hidden", "checked")
 	case 2:
-		return g.pick("data-v", "title", "id", "value", "hx-get") + "={ " + g.expr(0) + " }"
+		return g.pick("data-v", "title", "id", "value", "hx-get") + "=" + g.lb() + g.expr(0) + g.rb()
 	case 3:
-		return "class={ " + g.pick(g.expr(1), g.str()+", "+g.ident(), "templ.KV("+g.str()+", "+g.ident()+")", g.ident()+"()") + " }"
+		return "class=" + g.lb() + g.pick(g.expr(1), g.str()+", "+g.ident(), "templ.KV("+g.str()+", "+g.ident()+")", g.ident()+"()") + g.rb()
 	case 4:
-		return "style={ " + g.expr(1) + " }"
+		return "style=" + g.lb() + g.expr(1) + g.rb()
 	case 5:
 		if el == "form" {
 			return "action={ templ.URL(" + g.expr(1) + ") }"
 		}
 		return "href={ templ.URL(" + g.expr(1) + ") }"
 	case 6:
-		return g.pick("onclick", "onchange", "hx-on:click") + "={ " + g.ident() + "(" + g.expr(1) + ") }"
+		return g.pick("onclick", "onchange", "hx-on:click") + "=" + g.lb() + g.ident() + "(" + g.expr(1) + ") }"
 	case 7:
-		return g.pick("disabled", "checked", "selected") + "?={ " + g.cond1() + " }"
+		return g.pick("disabled", "checked", "selected") + "?=" + g.lb() + g.cond1() + g.rb()
 	case 8:
-		return "{ " + g.pick(g.ident(), g.ident()+"."+g.ident(), g.ident()+"("+g.expr(2)+")") + "... }"
+		return g.lb() + g.pick(g.ident(), g.ident()+"."+g.ident(), g.ident()+"("+g.expr(2)+")") + "..." + g.rb()
 	case 9:
 		return g.pick("title", "data-y") + "='" + g.words() + "'"
 	case 10:
@@ -404,7 +421,7 @@ func (g *pgen) attr(n int, el string, d int) string {
 		}
 		return s
 	default:
-		return g.pick("title", "data-z") + "={ " + g.pick(wideLetters...) + g.ident() + " }"
+		return g.pick("title", "data-z") + "=" + g.lb() + g.pick(wideLetters...) + g.ident() + g.rb()
 	}
 }
 
